@@ -1,6 +1,7 @@
 package main
 
 import (
+	"crypto/sha256"
 	"bytes"
 	"encoding/base64"
 	"encoding/json"
@@ -402,7 +403,74 @@ func runC04(c *mon.Ctx) {
 			}
 		}
 	}
+	c04DuplicateMembers(c)
 	c.Floor("hash_failing_cases", 200)
 	c.Floor("hash_matching_cases", 100)
 	c.Floor("redactable_only_cases", 100)
+}
+
+// c04DuplicateMembers: a relay rewrites the content of somebody else's event and smuggles the original "hashes" (or
+// "unsigned") past the hash check as a second member of the same name, counting on different parts of the parser
+// reading different copies. Whatever the parser makes of such a text (refuse it, or keep the redacted form), the altered
+// content must not surface under the original event's ID with the origin's signature intact.
+func c04DuplicateMembers(c *mon.Ctx) {
+	r := c.Rand("duplicates")
+	id := gen.NewIdentity(c.RandShared("id"), "a.example", "ed25519:k1")
+	n := c.Scale(6, 400)
+	for _, ver := range sortedVersions() {
+		t := ref.Traits(string(ver))
+		if t == nil {
+			continue
+		}
+		impl := gmsl.MustGetRoomVersion(ver)
+		for k := 0; k < n; k++ {
+			ps := genProto(r, t)
+			ev, err := buildEvent(ver, ps, id, baseTime)
+			if err != nil {
+				continue
+			}
+			orig := ref.MustParse(ev.JSON())
+			origContent := orig.Get("content").Clone()
+			for _, order := range []string{"forged-first", "forged-last"} {
+				tv := orig.Clone()
+				tv.Get("content").Set("injected_by_relay", ref.S("not what the sender wrote"))
+				// the hash the library computes: over the event minus signatures / unsigned and minus ONE hashes member
+				rest := tv.Clone()
+				rest.Del("signatures")
+				rest.Del("unsigned")
+				if t.EventFormat == 2 {
+					rest.Del("event_id")
+				}
+				h := sha256.Sum256(ref.Canon(rest))
+				forged := ref.Member{Key: "hashes", Val: ref.O("sha256", ref.S(base64.RawStdEncoding.EncodeToString(h[:])))}
+				if order == "forged-first" {
+					tv.O = append([]ref.Member{forged}, tv.O...)
+				} else {
+					tv.O = append(tv.O, forged)
+				}
+				text := gen.Plain().Bytes(tv)
+				c.Case("duplicate-member:hashes:"+order+":"+string(ver), map[string]any{"version": ver, "event": string(text)}, func() {
+					c.NontrivialBytes(append([]byte(string(ver)+"|dup|"), text...))
+					c.Count("duplicate_member_cases")
+					p, err := impl.NewEventFromUntrustedJSON(text)
+					if err != nil {
+						c.Count("duplicate_member_refused")
+						return
+					}
+					cv, _, perr := ref.Parse(p.Content())
+					if perr != nil {
+						return
+					}
+					if !ref.Equal(cv, origContent) && cv.Get("injected_by_relay") != nil {
+						got := ref.MustParse(p.JSON())
+						sigOK := refEventSigValid(got, t, id.Server, id.KeyID, id.Pub)
+						if p.EventID() == ev.EventID() || sigOK {
+							c.Failf("duplicate-member:content-substituted-under-original-identity", "v%s: a second \"hashes\" member lets rewritten content through: Redacted()=%v, event ID unchanged=%v, origin signature still valid=%v\n%s", ver, p.Redacted(), p.EventID() == ev.EventID(), sigOK, text)
+						}
+					}
+				})
+			}
+		}
+	}
+	c.Floor("duplicate_member_cases", 20)
 }
